@@ -213,7 +213,7 @@ func runC12(s *Sim) {
 						return
 					case "misaddressed":
 						// well-formed stream messages for addresses nobody owns
-						spontaneousMisaddressed(s, l, c.dn.B.Alias, t.Choose("spont-kind", 5))
+						spontaneousMisaddressed(s, l, c.dn.B.Alias, t.Choose("spont-kind", 7))
 						l.DeliverAll()
 						s.Logf("hostile: misaddressed stream message")
 						return
